@@ -1417,7 +1417,9 @@ class Roundtrip(_Base):
         return "roundtrip: records read back differ from what was written, or the second write differs"
 
 
-RELATIONS = [Header(), Read(), Roundtrip()]
+from .c06_tv import TRANSLATION, TVVersion  # noqa: E402,F401  (translation validation of check_version: c06_tv.py)
+
+RELATIONS = [Header(), Read(), Roundtrip(), TVVersion()]
 
 LEVEL_TEXT = (
     "Coq theorems (all inputs, no size bound) about a Gallina model of the .hap reader and writer: '#' lines that are "
